@@ -730,6 +730,11 @@ func (h *harness) directed() {
 			`{"a":"0x01","b":"0x01","c":"0x01","d":[],"e":{},"gk":{"type":3,"pubKeyHash":"0x05"},"hk":{"type":8,"hk":"0x01"},"kk":[]}`,
 			`{"a":"0x01","b":"0x01","c":"0x01","d":[],"e":{},"gk":{"type":3,"pubKeyHash":"0x05"},"hk":{"hk":"0x01"},"kk":[]}`,
 			`{"a":"0x01","b":"0x01","c":"0x01","d":[],"e":{"x":{"type":77,"pubKeyHash":"0x02"}},"gk":{"type":3,"pubKeyHash":"0x05"},"hk":"0x01","kk":[]}`,
+			// 56e687c: the pointer shape (*[3]byte with code 3: optional field f, map values e) verifies the type code too
+			`{"a":"0x01","b":"0x01","c":"0x01","d":[],"e":{},"gk":{"type":3,"pubKeyHash":"0x05"},"hk":"0x01","kk":[],"f":{"type":3,"pubKeyHash":"0x0a"}}`,
+			`{"a":"0x01","b":"0x01","c":"0x01","d":[],"e":{},"gk":{"type":3,"pubKeyHash":"0x05"},"hk":"0x01","kk":[],"f":{"type":99,"pubKeyHash":"0x0a"}}`,
+			`{"a":"0x01","b":"0x01","c":"0x01","d":[],"e":{},"gk":{"type":3,"pubKeyHash":"0x05"},"hk":"0x01","kk":[],"f":{"pubKeyHash":"0x0a"}}`,
+			`{"a":"0x01","b":"0x01","c":"0x01","d":[],"e":{"x":{"pubKeyHash":"0x02"},"y":{"type":"3","pubKeyHash":"0x02"}},"gk":{"type":3,"pubKeyHash":"0x05"},"hk":"0x01","kk":[]}`,
 			// c016509: named byte slice: object form, list of numbers, not a bare string; type code verified
 			`{"a":"0x01","b":"0x01","c":"0x01","d":[],"e":{},"gk":{"type":3,"pubKeyHash":"0x05"},"hk":"0x01","kk":{"type":11,"kk":"0x0102"},"l":[{"type":11,"nb":"0x03"},[4,5]]}`,
 			`{"a":"0x01","b":"0x01","c":"0x01","d":[],"e":{},"gk":{"type":3,"pubKeyHash":"0x05"},"hk":"0x01","kk":[1,300,2.5]}`,
